@@ -68,10 +68,14 @@ class TreeProp:
 
     def body(self, ex, obs):
         alpha = self.alphas[ex.alpha_name]
+        viol = list(self.clauses(ex, obs))
+        for ev in ex.events:
+            if ev[0] == "lost-entity":
+                viol.append(("live-entities-can-be-looked-up", f"{ev[2]}-not-found-by-uid", {"entity": ev[1], "results": ex.results[-5:]}))
         return {
             "key": obs["key"],
             "model_key": obs["model_key"],
-            "viol": self.clauses(ex, obs),
+            "viol": viol,
             "succ": treeops.enabled(ex.model, alpha),
             "outcome": treecheck.outcome(ex, obs),
         }
